@@ -2,6 +2,7 @@
 use vstd::prelude::*;
 use vstd::iset::*;
 use vstd::arithmetic::power2::*;
+use vstd::std_specs::bits::*;
 use std::io;
 use std::io::Cursor;
 use std::io::Read;
@@ -875,7 +876,9 @@ fn uncompress_surprising_values(
 impl CompressedState {
     // the sparse arm of `uncompress`, real body: REACHED FROM deserialize; nothing is known of `self` but what the parser established (cs_of(bytes))
     fn uncompress_sparse_flavor(&self, lg_k: u8) -> (r: UncompressedState)
-      requires 4 <= lg_k <= 26
+      requires 4 <= lg_k <= 26,
+        // the two debug_assert!s (= cs_flavor_ok for the sparse flavor; the parser does not establish it: C14.cpc.uncompress.flags_vs_flavor)
+        /*@C14.cpc.sparse.flags*/ self.window_data@.len() == 0 && self.table_data@.len() > 0,
       ensures r.window@.len() == 0, r.table.wf(), r.table.num_valid_bits == 6 + lg_k, r.table.num_items == self.table_num_entries
     {
         debug_assert!(self.window_data.is_empty());
@@ -1512,6 +1515,7 @@ proof fn lemma_wrapper_agrees(b: Seq<u8>, s: CpcSketch, w: CpcWrapper, wr_ok: bo
 spec fn deser_delivers(b: Seq<u8>, seed: u64, s: CpcSketch) -> bool {
     &&& cpc_accepts(b, seed)
     &&& s.lg_k == b[3] && s.first_interesting_column == b[4] && s.num_coupons == fld_num_coupons(b) && s.seed == seed && s.seed_hash == seed_hash_spec(seed)
+    &&& s.merge_flag == !f_hip(b) && s.kxp == kxp_value(b) && s.hip_est_accum == hip_value(b)
     &&& dco(s.lg_k, s.num_coupons) <= 255 ==> s.window_offset == dco(s.lg_k, s.num_coupons)
     &&& s.wf_lgk() && s.wf_window_len() && s.wf_table() && s.wf_rows() && s.wf_empty() && s.wf_nvb()
     &&& s.windowed() <==> 32 * (s.num_coupons as int) >= 3 * s.k()
@@ -1528,6 +1532,15 @@ proof fn c13_cpc_nonempty_flags(b: Seq<u8>, seed: u64)
 proof fn c13_cpc_wrapper_nonempty_flags(b: Seq<u8>)
   requires cpc_header_spec(b) is Some
   ensures /*@C13.cpc.wrapper.nonempty_flags*/ cpc_nonempty_ok(b)
+{
+}
+// (a') C11 for the EMPTY sketch: kxp is not in the image of an empty sketch (correct per the format), so the reader must restore the value a fresh
+//      sketch has (CpcSketch::with_seed: `kxp: (1 << lg_k) as f64`).  It leaves 0.0: after deserialize(serialize(new(lg_k))) every update adds
+//      k / 0.0 = inf to the HIP accumulator.
+uninterp spec fn kxp_fresh(lg_k: u8) -> f64;      // (1 << lg_k) as f64
+proof fn c11_cpc_empty_kxp(b: Seq<u8>, seed: u64, s: CpcSketch)
+  requires deser_delivers(b, seed, s), s.num_coupons == 0, !s.merge_flag
+  ensures /*@C11.cpc.empty_kxp*/ s.kxp == kxp_fresh(s.lg_k)
 {
 }
 // (b) the five conjuncts of uncompress_pre
@@ -1554,6 +1567,19 @@ proof fn c14_cpc_uncompress_window_bits(b: Seq<u8>, seed: u64)
 proof fn c14_cpc_uncompress_offset(b: Seq<u8>, seed: u64)
   requires cpc_accepts(b, seed)
   ensures /*@C14.cpc.uncompress.offset*/ cs_offset_ok(flavor_spec(b[3], fld_num_coupons(b)), cs_of(b), b[3], fld_num_coupons(b))
+{
+}
+// (b') PairTable::from_slots is handed the decoded pairs: all that is known of them is their number (uncompress_surprising_values), so its
+//      remaining preconditions (rows below k / not the empty marker: `assert!(probe <= mask)` in lookup; no duplicates: `assert_ne!` in must_insert)
+//      are not established either
+proof fn c14_cpc_from_slots_range(pairs: Seq<u32>, num_items: u32, lg_k: u8)
+  requires 4 <= lg_k <= 26, pairs.len() == num_items
+  ensures /*@C14.cpc.from_slots.range*/ forall|i: int| 0 <= i < num_items ==> pairs[i] != EMPTY && (#[trigger] pairs[i] as int) < pow2((6 + lg_k) as nat)
+{
+}
+proof fn c14_cpc_from_slots_distinct(pairs: Seq<u32>, num_items: u32, lg_k: u8)
+  requires 4 <= lg_k <= 26, pairs.len() == num_items
+  ensures /*@C14.cpc.from_slots.distinct*/ forall|i: int, j: int| 0 <= i < j < num_items ==> pairs[i] != pairs[j]
 {
 }
 // (c) the clauses of CpcSketch::wf() that no check of the parser implies: numCoupons is unbounded (so window_offset, a u8 truncation of
@@ -1607,5 +1633,480 @@ proof fn c14_cpc_wf_complete(b: Seq<u8>, seed: u64, s: CpcSketch)
     assert(s.wf_matrix());
 }
 
+
+// =====================================================================================================================
+// cpc/compression.rs: the bit-stream leaves.  A stream is a Seq<bool>, least significant bit of each word first.
+// =====================================================================================================================
+spec fn bit64(x: u64, i: int) -> bool { (x >> (i as u64)) & 1 == 1 }
+spec fn bit32(x: u32, i: int) -> bool { (x >> (i as u32)) & 1 == 1 }
+spec fn buf_bits(b: u64, n: int) -> Seq<bool> { Seq::new(n as nat, |i: int| bit64(b, i)) }
+spec fn word_bits(w: u32) -> Seq<bool> { Seq::new(32, |i: int| bit32(w, i)) }
+spec fn words_bits(ws: Seq<u32>) -> Seq<bool> decreases ws.len() { if ws.len() == 0 { Seq::empty() } else { words_bits(ws.drop_last()) + word_bits(ws.last()) } }
+spec fn zeros(n: int) -> Seq<bool> { Seq::new(n as nat, |i: int| false) }
+// no garbage above the low n bits
+spec fn buf_clean(b: u64, n: int) -> bool { 0 <= n <= 64 && (n < 64 ==> (b >> (n as u64)) == 0) }
+// writer: the bits emitted so far = the flushed words ++ the low bufbits bits of bitbuf
+spec fn wstream(words: Seq<u32>, idx: int, bitbuf: u64, bufbits: int) -> Seq<bool> { words_bits(words.take(idx)) + buf_bits(bitbuf, bufbits) }
+// reader: the bits still to be read = the low bufbits bits of bitbuf ++ the unread words
+spec fn rstream(words: Seq<u32>, idx: int, bitbuf: u64, bufbits: int) -> Seq<bool> { buf_bits(bitbuf, bufbits) + words_bits(words.skip(idx)) }
+// unary code of v: v zeros then a one
+spec fn unary(v: int) -> Seq<bool> { zeros(v).push(true) }
+// position of the first one (the length when there is none)
+spec fn first_one(s: Seq<bool>) -> int decreases s.len() { if s.len() == 0 { 0 } else if s[0] { 0 } else { 1 + first_one(s.skip(1)) } }
+
+proof fn lemma_words_bits_len(ws: Seq<u32>) ensures words_bits(ws).len() == 32 * ws.len() decreases ws.len() {
+    if ws.len() > 0 { lemma_words_bits_len(ws.drop_last()); }
+}
+proof fn lemma_words_bits_concat(a: Seq<u32>, b: Seq<u32>) ensures words_bits(a + b) == words_bits(a) + words_bits(b) decreases b.len() {
+    if b.len() == 0 { assert(a + b =~= a); assert(words_bits(a) + words_bits(b) =~= words_bits(a)); }
+    else {
+        assert((a + b).drop_last() =~= a + b.drop_last());
+        lemma_words_bits_concat(a, b.drop_last());
+        assert(words_bits(a) + words_bits(b.drop_last()) + word_bits(b.last()) =~= words_bits(a) + (words_bits(b.drop_last()) + word_bits(b.last())));
+    }
+}
+proof fn lemma_words_bits_one(w: u32) ensures words_bits(seq![w]) == word_bits(w) {
+    reveal_with_fuel(words_bits, 2);
+    assert(seq![w].drop_last() =~= Seq::<u32>::empty());
+    assert(words_bits(seq![w]) =~= word_bits(w));
+}
+// the low 32 bits of the buffer leave as one word
+proof fn lemma_buf_split(b: u64, n: int)
+  requires 32 <= n <= 64
+  ensures buf_bits(b, n) == word_bits((b & 0xffffffff) as u32) + buf_bits(b >> 32, n - 32)
+{
+    let lo = (b & 0xffffffff) as u32;
+    assert forall|i: int| 0 <= i < n implies buf_bits(b, n)[i] == (word_bits(lo) + buf_bits(b >> 32, n - 32))[i] by {
+        let iu = i as u64;
+        if i < 32 {
+            assert(iu < 32 ==> ((((b & 0xffffffff) as u32) >> (iu as u32)) & 1 == 1) == ((b >> iu) & 1 == 1)) by (bit_vector);
+        } else {
+            let ju = (i - 32) as u64;
+            assert(32 <= iu < 64 && ju == iu - 32 ==> (((b >> 32) >> ju) & 1 == 1) == ((b >> iu) & 1 == 1)) by (bit_vector);
+        }
+    }
+    assert(buf_bits(b, n) =~= word_bits(lo) + buf_bits(b >> 32, n - 32));
+}
+// a word enters above the low n bits of a clean buffer
+proof fn lemma_buf_join(b: u64, n: int, w: u32)
+  requires buf_clean(b, n), n <= 32
+  ensures buf_bits(b | ((w as u64) << (n as u64)), n + 32) == buf_bits(b, n) + word_bits(w), buf_clean(b | ((w as u64) << (n as u64)), n + 32)
+{
+    let nu = n as u64; let b2 = b | ((w as u64) << nu);
+    assert forall|i: int| 0 <= i < n + 32 implies buf_bits(b2, n + 32)[i] == (buf_bits(b, n) + word_bits(w))[i] by {
+        let iu = i as u64;
+        if i < n {
+            assert(nu <= 32 && iu < nu ==> (((b | ((w as u64) << nu)) >> iu) & 1 == 1) == ((b >> iu) & 1 == 1)) by (bit_vector);
+        } else {
+            let ju = (i - n) as u32;
+            assert(nu <= 32 && (b >> nu) == 0 && nu <= iu < nu + 32 && ju == (iu - nu) as u32 ==> (((b | ((w as u64) << nu)) >> iu) & 1 == 1) == ((w >> ju) & 1 == 1)) by (bit_vector);
+        }
+    }
+    assert(buf_bits(b2, n + 32) =~= buf_bits(b, n) + word_bits(w));
+    if n + 32 < 64 { let mu = (n + 32) as u64; assert(nu <= 32 && (b >> nu) == 0 && mu == nu + 32 && mu < 64 ==> ((b | ((w as u64) << nu)) >> mu) == 0) by (bit_vector); }
+}
+// consuming the low m bits
+proof fn lemma_buf_shift(b: u64, n: int, m: int)
+  requires buf_clean(b, n), 0 <= m <= n, m < 64
+  ensures buf_bits(b >> (m as u64), n - m) == buf_bits(b, n).skip(m), buf_clean(b >> (m as u64), n - m)
+{
+    let mu = m as u64;
+    assert forall|i: int| 0 <= i < n - m implies buf_bits(b >> mu, n - m)[i] == buf_bits(b, n).skip(m)[i] by {
+        let iu = i as u64; let ku = (i + m) as u64;
+        assert(mu < 64 && ku < 64 && ku == iu + mu ==> (((b >> mu) >> iu) & 1 == 1) == ((b >> ku) & 1 == 1)) by (bit_vector);
+    }
+    assert(buf_bits(b >> mu, n - m) =~= buf_bits(b, n).skip(m));
+    if n - m < 64 {
+        let ru = (n - m) as u64; let nu = n as u64;
+        if n < 64 { assert(mu < 64 && nu < 64 && ru == nu - mu && (b >> nu) == 0 ==> ((b >> mu) >> ru) == 0) by (bit_vector); }
+        else { assert(mu < 64 && ru == 64 - mu && mu > 0 ==> ((b >> mu) >> ru) == 0) by (bit_vector); }
+    }
+}
+// zeros above a clean buffer are already there
+proof fn lemma_buf_zeros(b: u64, n: int, z: int)
+  requires buf_clean(b, n), 0 <= z, n + z <= 64
+  ensures buf_bits(b, n + z) == buf_bits(b, n) + zeros(z), buf_clean(b, n + z)
+{
+    let nu = n as u64;
+    assert forall|i: int| 0 <= i < n + z implies buf_bits(b, n + z)[i] == (buf_bits(b, n) + zeros(z))[i] by {
+        let iu = i as u64;
+        if i >= n { assert(nu <= iu < 64 && (b >> nu) == 0 ==> !((b >> iu) & 1 == 1)) by (bit_vector); }
+    }
+    assert(buf_bits(b, n + z) =~= buf_bits(b, n) + zeros(z));
+    if n + z < 64 { let mu = (n + z) as u64; assert(nu <= mu < 64 && (b >> nu) == 0 ==> (b >> mu) == 0) by (bit_vector); }
+}
+// a one enters r places above a clean buffer
+proof fn lemma_buf_unary(b: u64, n: int, r: u64)
+  requires buf_clean(b, n), n <= 31, r <= 15
+  ensures buf_bits(b | ((1u64 << r) << (n as u64)), n + r + 1) == buf_bits(b, n) + unary(r as int), buf_clean(b | ((1u64 << r) << (n as u64)), n + r + 1)
+{
+    let nu = n as u64; let b2 = b | ((1u64 << r) << nu);
+    assert forall|i: int| 0 <= i < n + r + 1 implies buf_bits(b2, n + r + 1)[i] == (buf_bits(b, n) + unary(r as int))[i] by {
+        let iu = i as u64;
+        assert(nu <= 31 && r <= 15 && (b >> nu) == 0 && iu <= nu + r ==> (((b | ((1u64 << r) << nu)) >> iu) & 1 == 1) == (if iu < nu { (b >> iu) & 1 == 1 } else { iu == nu + r })) by (bit_vector);
+    }
+    assert(buf_bits(b2, n + r + 1) =~= buf_bits(b, n) + unary(r as int));
+    let mu = (n + r + 1) as u64;
+    assert(nu <= 31 && r <= 15 && (b >> nu) == 0 && mu == nu + r + 1 ==> ((b | ((1u64 << r) << nu)) >> mu) == 0) by (bit_vector);
+}
+proof fn lemma_first_one_at(s: Seq<bool>, j: int)
+  requires 0 <= j < s.len(), s[j], forall|i: int| 0 <= i < j ==> !s[i]
+  ensures first_one(s) == j
+  decreases j
+{
+    if j > 0 { lemma_first_one_at(s.skip(1), j - 1); }
+}
+proof fn lemma_first_one_skip(s: Seq<bool>, j: int)
+  requires 0 <= j <= s.len(), forall|i: int| 0 <= i < j ==> !s[i]
+  ensures first_one(s) == j + first_one(s.skip(j))
+  decreases j
+{
+    if j > 0 { lemma_first_one_skip(s.skip(1), j - 1); assert(s.skip(1).skip(j - 1) =~= s.skip(j)); } else { assert(s.skip(0) =~= s); }
+}
+proof fn lemma_first_one_bound(s: Seq<bool>) ensures 0 <= first_one(s) <= s.len() decreases s.len() { if s.len() > 0 { lemma_first_one_bound(s.skip(1)); } }
+
+fn maybe_flush_bitbuf(
+    bitbuf: &mut u64,
+    bufbits: &mut u8,
+    word: &mut [u32],
+    word_index: &mut usize,
+)
+  requires
+    *old(bufbits) >= 32 ==> *old(word_index) < old(word)@.len(),     // `word[*word_index]`
+    buf_clean(*old(bitbuf), *old(bufbits) as int),
+  ensures
+    /*@C12.cpc.bits.flush*/ wstream(final(word)@, *final(word_index) as int, *final(bitbuf), *final(bufbits) as int) == wstream(old(word)@, *old(word_index) as int, *old(bitbuf), *old(bufbits) as int),
+    final(word)@.len() == old(word)@.len(),
+    *old(bufbits) >= 32 ==> *final(bufbits) == *old(bufbits) - 32 && *final(word_index) == *old(word_index) + 1,
+    *old(bufbits) < 32 ==> *final(bufbits) == *old(bufbits) && *final(word_index) == *old(word_index) && *final(bitbuf) == *old(bitbuf) && final(word)@ == old(word)@,
+    buf_clean(*final(bitbuf), *final(bufbits) as int),
+{
+    if *bufbits >= 32 {
+        proof {
+            lemma_buf_split(*bitbuf, *bufbits as int);
+            lemma_buf_shift(*bitbuf, *bufbits as int, 32);
+        }
+        word[*word_index] = (*bitbuf & 0xffffffff) as u32;
+        *word_index += 1;
+        *bitbuf >>= 32;
+        *bufbits -= 32;
+        proof {
+            let i0 = *old(word_index) as int; let lo = (*old(bitbuf) & 0xffffffff) as u32;
+            assert(word@.take(i0 + 1).drop_last() =~= old(word)@.take(i0));
+            assert(word@.take(i0 + 1).last() == lo);
+            assert(wstream(word@, i0 + 1, *bitbuf, *bufbits as int) =~= wstream(old(word)@, i0, *old(bitbuf), *old(bufbits) as int));
+        }
+    }
+}
+
+fn maybe_fill_bitbuf(
+    bitbuf: &mut u64,
+    bufbits: &mut u8,
+    words: &[u32],
+    word_index: &mut usize,
+    minbits: u8,
+)
+  requires
+    /*@C14.cpc.bits.fill_in_bounds*/ *old(bufbits) < minbits ==> *old(word_index) < words@.len(),     // `words[*word_index]`: UNCHECKED against the data length
+    minbits <= 32,
+    buf_clean(*old(bitbuf), *old(bufbits) as int),
+  ensures
+    /*@C13.cpc.bits.fill*/ rstream(words@, *final(word_index) as int, *final(bitbuf), *final(bufbits) as int) == rstream(words@, *old(word_index) as int, *old(bitbuf), *old(bufbits) as int),
+    *final(bufbits) >= minbits,
+    *old(bufbits) < minbits ==> *final(bufbits) == *old(bufbits) + 32 && *final(word_index) == *old(word_index) + 1,
+    *old(bufbits) >= minbits ==> *final(bufbits) == *old(bufbits) && *final(word_index) == *old(word_index) && *final(bitbuf) == *old(bitbuf),
+    buf_clean(*final(bitbuf), *final(bufbits) as int),
+{
+    if *bufbits < minbits {
+        proof {
+            let i0 = *word_index as int; let w = words@[i0];
+            lemma_buf_join(*bitbuf, *bufbits as int, w);
+            assert(words@.skip(i0) =~= seq![w] + words@.skip(i0 + 1));
+            lemma_words_bits_concat(seq![w], words@.skip(i0 + 1));
+            lemma_words_bits_one(w);
+            let n = *bufbits as u64; let nu = *bufbits;
+            assert((w as u64) << n == (w as u64) << nu) by (bit_vector) requires n == nu as u64;
+        }
+        *bitbuf |= (words[*word_index] as u64) << *bufbits;
+        *word_index += 1;
+        *bufbits += 32;
+        proof {
+            let i0 = *old(word_index) as int; let w = words@[i0];
+            assert(rstream(words@, i0 + 1, *bitbuf, *bufbits as int) =~= rstream(words@, i0, *old(bitbuf), *old(bufbits) as int));
+        }
+    }
+}
+
+fn write_unary(
+    compressed_words: &mut [u32],
+    next_word_index: &mut usize,
+    bitbuf: &mut u64,
+    bufbits: &mut u8,
+    value: u64,
+)
+  requires
+    *old(bufbits) <= 31,      // the assert!
+    buf_clean(*old(bitbuf), *old(bufbits) as int),
+    // room for every word that becomes full (`word[*word_index]` in maybe_flush_bitbuf)
+    32 * *old(next_word_index) + *old(bufbits) + value + 1 <= 32 * old(compressed_words)@.len() + 31,
+  ensures
+    /*@C12.cpc.bits.write_unary*/ wstream(final(compressed_words)@, *final(next_word_index) as int, *final(bitbuf), *final(bufbits) as int)
+        == wstream(old(compressed_words)@, *old(next_word_index) as int, *old(bitbuf), *old(bufbits) as int) + unary(value as int),
+    final(compressed_words)@.len() == old(compressed_words)@.len(),
+    *final(bufbits) <= 31, buf_clean(*final(bitbuf), *final(bufbits) as int),
+    32 * *final(next_word_index) + *final(bufbits) == 32 * *old(next_word_index) + *old(bufbits) + value + 1,
+{
+    assert!(*bufbits <= 31);
+    let ghost s0 = wstream(compressed_words@, *next_word_index as int, *bitbuf, *bufbits as int);
+    let ghost len = compressed_words@.len();
+    let ghost t0 = 32 * *next_word_index + *bufbits;
+
+    let mut remaining = value;
+    proof { assert(s0 + zeros(0) =~= s0); }
+    while remaining >= 16
+      invariant
+        remaining <= value, compressed_words@.len() == len, *bufbits <= 31, buf_clean(*bitbuf, *bufbits as int),
+        wstream(compressed_words@, *next_word_index as int, *bitbuf, *bufbits as int) == s0 + zeros(value - remaining),
+        32 * *next_word_index + *bufbits == t0 + (value - remaining),
+        t0 + value + 1 <= 32 * len + 31,
+      decreases remaining
+    {
+        remaining -= 16;
+        // Here we output 16 zeros, but we don't need to physically write them into bitbuf
+        // because it already contains zeros in that region.
+        proof {
+            lemma_buf_zeros(*bitbuf, *bufbits as int, 16);
+            let w = words_bits(compressed_words@.take(*next_word_index as int));
+            assert(w + (buf_bits(*bitbuf, *bufbits as int) + zeros(16)) =~= (w + buf_bits(*bitbuf, *bufbits as int)) + zeros(16));
+            assert(s0 + zeros(value - remaining - 16) + zeros(16) =~= s0 + zeros(value - remaining));
+        }
+        *bufbits += 16; // Record the fact that 16 bits of output have occurred.
+        maybe_flush_bitbuf(bitbuf, bufbits, compressed_words, next_word_index);
+    }
+
+    proof {
+        lemma_buf_unary(*bitbuf, *bufbits as int, remaining);
+        let n = *bufbits as u64; let nu = *bufbits;
+        assert(((1u64 << remaining) << n) == ((1u64 << remaining) << nu)) by (bit_vector) requires n == nu as u64;
+        assert(remaining <= 15 ==> (1u64 << remaining) <= 0x8000) by (bit_vector);
+        let w = words_bits(compressed_words@.take(*next_word_index as int));
+        assert(w + (buf_bits(*bitbuf, *bufbits as int) + unary(remaining as int)) =~= (w + buf_bits(*bitbuf, *bufbits as int)) + unary(remaining as int));
+        assert(s0 + zeros(value - remaining) + unary(remaining as int) =~= s0 + unary(value as int));
+    }
+    let the_unary_code = 1 << remaining;
+    *bitbuf |= the_unary_code << *bufbits;
+    *bufbits += (remaining + 1) as u8;
+    maybe_flush_bitbuf(bitbuf, bufbits, compressed_words, next_word_index);
+}
+
+fn read_unary(
+    compressed_words: &[u32],
+    next_word_index: &mut usize,
+    bitbuf: &mut u64,
+    bufbits: &mut u8,
+) -> (r: u64)
+  requires
+    buf_clean(*old(bitbuf), *old(bufbits) as int), *old(bufbits) <= 63,
+    // a terminating one followed by 7 more bits: what the writer's padding provides.  On ARBITRARY data (deserialize) nothing provides it:
+    // an all-zero tail makes the loop run off the end of `words` (index panic in maybe_fill_bitbuf)
+    /*@C14.cpc.bits.unary_terminates*/ first_one(rstream(compressed_words@, *old(next_word_index) as int, *old(bitbuf), *old(bufbits) as int)) + 8
+        <= rstream(compressed_words@, *old(next_word_index) as int, *old(bitbuf), *old(bufbits) as int).len(),
+    *old(next_word_index) <= compressed_words@.len() <= 0x3ff_ffff_ffff_ffff,
+  ensures
+    /*@C13.cpc.bits.read_unary*/ r == first_one(rstream(compressed_words@, *old(next_word_index) as int, *old(bitbuf), *old(bufbits) as int)),
+    /*@C13.cpc.bits.read_unary_rest*/ rstream(compressed_words@, *final(next_word_index) as int, *final(bitbuf), *final(bufbits) as int)
+        == rstream(compressed_words@, *old(next_word_index) as int, *old(bitbuf), *old(bufbits) as int).skip(r + 1),
+    buf_clean(*final(bitbuf), *final(bufbits) as int), *final(bufbits) <= 63, *final(next_word_index) <= compressed_words@.len(),
+{
+    let ghost rs0 = rstream(compressed_words@, *next_word_index as int, *bitbuf, *bufbits as int);
+    let mut subtotal = 0u64;
+    proof { assert(rs0.skip(0) =~= rs0); lemma_first_one_bound(rs0); lemma_words_bits_len(compressed_words@.skip(*next_word_index as int)); }
+    loop
+      invariant
+        buf_clean(*bitbuf, *bufbits as int), *bufbits <= 63, *next_word_index <= compressed_words@.len() <= 0x3ff_ffff_ffff_ffff,
+        rstream(compressed_words@, *next_word_index as int, *bitbuf, *bufbits as int) == rs0.skip(subtotal as int),
+        subtotal <= first_one(rs0), first_one(rs0) == subtotal + first_one(rs0.skip(subtotal as int)),
+        first_one(rs0) + 8 <= rs0.len(), rs0.len() <= 64 + 32 * compressed_words@.len(),
+        rs0 == rstream(compressed_words@, *old(next_word_index) as int, *old(bitbuf), *old(bufbits) as int),
+      decreases rs0.len() - subtotal
+    {
+        let ghost cur = rs0.skip(subtotal as int);
+        proof { lemma_words_bits_len(compressed_words@.skip(*next_word_index as int)); }
+        // ensure 8 bits in bit buffer
+        maybe_fill_bitbuf(bitbuf, bufbits, compressed_words, next_word_index, 8);
+        // These 8 bits include either all or part of the Unary codeword
+        let peek8 = *bitbuf & 0xff;
+        let trailing_zeros = peek8.trailing_zeros() as u8;
+        proof {
+            axiom_u64_trailing_zeros(peek8);
+            let b = *bitbuf; let tz = u64_trailing_zeros(peek8);
+            assert((b & 0xff) == 0 ==> forall|j: u64| j < 8 ==> !(#[trigger] (b >> j) & 1 == 1)) by (bit_vector);
+            assert(forall|j: u64| j < 8 ==> (#[trigger] ((b & 0xff) >> j) & 1 == 1) == ((b >> j) & 1 == 1)) by (bit_vector);
+            assert((b & 0xff) != 0 ==> (b & 0xff) < 256) by (bit_vector);
+            if tz < 64 { let t = tz as u64; assert((b & 0xff) < 256 && ((b & 0xff) >> t) & 1 == 1 ==> t < 8) by (bit_vector); }
+            lemma_words_bits_len(compressed_words@.skip(*next_word_index as int));
+            if trailing_zeros < 8 {
+                let t = trailing_zeros as int;
+                assert(cur[t]) by { assert(cur[t] == bit64(b, t)); assert(((peek8 >> (t as u64)) & 1 == 1) == ((b >> (t as u64)) & 1 == 1)); }
+                assert forall|i: int| 0 <= i < t implies !cur[i] by { let iu = i as u64; assert(cur[i] == bit64(b, i)); assert((peek8 >> iu) & 1u64 == 0u64); assert(((peek8 >> iu) & 1 == 1) == ((b >> iu) & 1 == 1)); }
+                lemma_first_one_at(cur, t);
+                lemma_buf_shift(b, *bufbits as int, t + 1);
+                let sh = (1 + trailing_zeros) as u8; let sh64 = (t + 1) as u64;
+                assert((b >> sh) == (b >> sh64)) by (bit_vector) requires sh64 == sh as u64;
+            } else {
+                assert forall|i: int| 0 <= i < 8 implies !cur[i] by { let iu = i as u64; assert(cur[i] == bit64(b, i)); assert(!((b >> iu) & 1 == 1)); }
+                lemma_first_one_skip(cur, 8);
+                assert(cur.skip(8) =~= rs0.skip(subtotal as int + 8));
+                lemma_buf_shift(b, *bufbits as int, 8);
+                lemma_first_one_bound(cur.skip(8));
+            }
+        }
+        if trailing_zeros < 8 {
+            *bufbits -= 1 + trailing_zeros;
+            *bitbuf >>= 1 + trailing_zeros;
+            proof {
+                let t = trailing_zeros as int;
+                assert(rstream(compressed_words@, *next_word_index as int, *bitbuf, *bufbits as int) =~= cur.skip(t + 1));
+                assert(cur.skip(t + 1) =~= rs0.skip(subtotal as int + t + 1));
+            }
+            return subtotal + trailing_zeros as u64;
+        }
+        // The codeword was partial, so read some more
+        subtotal += 8;
+        *bufbits -= 8;
+        *bitbuf >>= 8;
+        proof {
+            assert(rstream(compressed_words@, *next_word_index as int, *bitbuf, *bufbits as int) =~= cur.skip(8));
+        }
+    }
+}
+
+// C11 for the unary code: what write_unary appends is what read_unary consumes, and it returns the value
+proof fn lemma_unary_roundtrip(v: int, rest: Seq<bool>)
+  requires 0 <= v
+  ensures /*@C11.cpc.unary*/ first_one(unary(v) + rest) == v, (unary(v) + rest).skip(v + 1) == rest
+{
+    let s = unary(v) + rest;
+    assert(s[v]);
+    lemma_first_one_at(s, v);
+    assert(s.skip(v + 1) =~= rest);
+}
+
+fn divide_longs_rounding_up(x: usize, y: usize) -> (r: usize)
+  requires y != 0       // the debug_assert; `quotient * y` cannot overflow since it is at most x
+  ensures r == (x + y - 1) / (y as int)
+{
+    debug_assert!(y != 0);
+    let quotient = x / y;
+    proof {
+        let q = (x as int) / (y as int);
+        vstd::arithmetic::div_mod::lemma_fundamental_div_mod(x as int, y as int);
+        assert(q * y <= x) by (nonlinear_arith) requires x == y * q + (x as int) % (y as int), (x as int) % (y as int) >= 0;
+        assert(0 <= q) by (nonlinear_arith) requires q == (x as int) / (y as int), x >= 0, y > 0;
+        let m = (x as int) % (y as int);
+        if m == 0 {
+            assert((x + y - 1) / (y as int) == q) by (nonlinear_arith) requires x == y * q, y > 0;
+        } else {
+            assert((x + y - 1) / (y as int) == q + 1) by (nonlinear_arith) requires x == y * q + m, 0 < m < y;
+            assert(q * y != x) by (nonlinear_arith) requires x == y * q + m, 0 < m;
+            assert(q + 1 <= usize::MAX) by (nonlinear_arith) requires q * y <= x, y >= 1, x == y * q + m, 0 < m, m < y, x <= usize::MAX;
+        }
+    }
+    if quotient * y == x {
+        quotient
+    } else {
+        quotient + 1
+    }
+}
+
+fn safe_length_for_compressed_window_buf(k: u32) -> (r: usize)
+  requires 12 * k + 11 <= 0xffff_ffff      // `12 * k + 11` is u32 arithmetic: k <= 2^26 is fine
+  ensures r == (12 * k + 11 + 31) / 32
+{
+    // 11 bits of padding, due to 12-bit lookahead, with 1 bit certainly present.
+    let bits = 12 * k + 11;
+    divide_longs_rounding_up(bits as usize, 32)
+}
+
+fn floor_log2_of_long(x: u64) -> (r: u8)
+  requires x > 0,       // the debug_assert
+    // `y <<= 1` loses the top bit: for x > 2^63 the loop reaches y == 0 and never ends (debug: `p += 1` overflows after 255 rounds)
+    x <= 0x8000_0000_0000_0000,
+  ensures pow2(r as nat) <= x < pow2(r as nat + 1), r <= 63
+{
+    debug_assert!(x > 0);
+    let mut p = 0u8;
+    let mut y = 1u64;
+    proof { lemma2_to64(); }
+    loop
+      invariant p <= 63, y == pow2(p as nat), p > 0 ==> pow2((p - 1) as nat) < x, 0 < x <= 0x8000_0000_0000_0000,
+      decreases 64 - p
+    {
+        proof {
+            lemma2_to64(); lemma2_to64_rest();
+            lemma_pow2_strictly_increases(p as nat, p as nat + 1);
+            if p > 0 { lemma_pow2_strictly_increases((p - 1) as nat, p as nat); }
+        }
+        match u64::cmp(&y, &x) {
+            Ordering::Equal => return p,
+            Ordering::Greater => return p - 1,
+            Ordering::Less => {
+                proof {
+                    if p >= 63 { assert(pow2(63) == 0x8000_0000_0000_0000); assert(false); }
+                    lemma_pow2_unfold(p as nat + 1);
+                    assert(y < 0x8000_0000_0000_0000 ==> (y << 1) == y * 2) by (bit_vector);
+                    if p < 62 { lemma_pow2_strictly_increases(p as nat + 1, 63); }
+                }
+                p += 1;
+                y <<= 1;
+            }
+        }
+    }
+}
+
+fn golomb_choose_number_of_base_bits(k: u32, count: u64) -> (r: u8)
+  requires
+    count > 0,          // debug_assert; division by zero otherwise (uncompress_surprising_values is only called with num_pairs > 0 ... except from the sparse / hybrid arms)
+    /*@C14.cpc.golomb.k_ge_count*/ k >= count,      // `(k as u64) - count`: k is `(1 << lg_k) + num_pairs` computed in u32 -- it wraps for num_pairs > 2^32 - 2^lg_k
+  ensures r <= 31, ({ let q = (k as int - count as int) / (count as int); if q == 0 { r == 0 } else { pow2(r as nat) <= q < pow2(r as nat + 1) } })
+{
+    debug_assert!(k > 0);
+    debug_assert!(count > 0);
+    let quotient = ((k as u64) - count) / count; // integer division
+    proof {
+        let d = (k as int) - (count as int);
+        assert(d / (count as int) <= d) by (nonlinear_arith) requires d >= 0, count >= 1;
+        assert(0 <= d / (count as int)) by (nonlinear_arith) requires d >= 0, count >= 1;
+    }
+    if quotient == 0 {
+        0
+    } else {
+        proof { lemma2_to64(); assert forall|e: nat| e >= 32 implies #[trigger] pow2(e) >= 0x1_0000_0000 by { lemma_pow2_increases(32, e); } }
+        floor_log2_of_long(quotient)
+    }
+}
+
+fn safe_length_for_compressed_pair_buf(k: u32, num_pairs: u32, num_base_bits: u8) -> (r: usize)
+  requires num_base_bits < 64      // `k >> num_base_bits` on usize
+  ensures r == (12 * num_pairs + num_pairs * (1 + num_base_bits) + (k as usize >> (num_base_bits as usize)) + (if num_base_bits >= 10 { 0int } else { 10 - num_base_bits }) + 31) / 32
+{
+    // Long ybits = k + numPairs; // simpler and safer UB
+    // The following tighter UB on ybits is based on page 198
+    // of the textbook "Managing Gigabytes" by Witten, Moffat, and Bell.
+    // Notice that if numBaseBits == 0 it coincides with (k + numPairs).
+
+    let k = k as usize;
+    let num_pairs = num_pairs as usize;
+    let num_base_bits = num_base_bits as usize;
+    proof {
+        assert(num_pairs * (1 + num_base_bits) <= 0xffff_ffff * 64) by (nonlinear_arith) requires num_pairs <= 0xffff_ffff, num_base_bits < 64;
+        assert(k <= 0xffff_ffff && num_base_bits < 64 ==> (k >> num_base_bits) <= 0xffff_ffff) by (bit_vector);
+    }
+
+    let ybits = num_pairs * (1 + num_base_bits) + (k >> num_base_bits);
+    let xbits = 12 * (num_pairs);
+    let padding = 10usize.saturating_sub(num_base_bits);
+    divide_longs_rounding_up(xbits + ybits + padding, 32)
+}
 }
 fn main(){}
